@@ -331,6 +331,18 @@ pub fn answer_rows(cfg: &MockConfig, node: usize, q: &SysQuery, req: &Request) -
             a.copy_from_slice(ps);
             (u64::from_be_bytes(a) as usize).min(total)
         }
+        // 9 bytes = an offset + a marker: the page in between two real pages that carries NO rows but more pages to come
+        Some(ps) if ps.len() == 9 && super::SYS_EMPTY_PAGES.load(std::sync::atomic::Ordering::SeqCst) => {
+            return Reply::Rows {
+                cols: result_cols(&def, &idx),
+                ks: q.ks.clone(),
+                table: q.table.clone(),
+                rows: vec![],
+                paging_state: Some(ps[..8].to_vec()),
+                no_metadata: req.skip_metadata,
+                new_metadata_id: None,
+            };
+        }
         Some(_) => return invalid("malformed paging state (mock)".into()),
         None => 0,
     };
@@ -342,7 +354,15 @@ pub fn answer_rows(cfg: &MockConfig, node: usize, q: &SysQuery, req: &Request) -
         },
     };
     let end = offset.saturating_add(page).min(total);
-    let paging_state = if end < total { Some((end as u64).to_be_bytes().to_vec()) } else { None };
+    let paging_state = if end < total {
+        let mut st = (end as u64).to_be_bytes().to_vec();
+        if super::SYS_EMPTY_PAGES.load(std::sync::atomic::Ordering::SeqCst) {
+            st.push(1);
+        }
+        Some(st)
+    } else {
+        None
+    };
     let out_rows: Vec<Vec<Option<Vec<u8>>>> = rows[offset..end].iter().map(|r| idx.iter().map(|&i| r[i].enc()).collect()).collect();
     Reply::Rows {
         cols: result_cols(&def, &idx),
